@@ -16,7 +16,7 @@ SPEC = {
     'bounds': {'quick': {'composites_per_shard': 260}, 'thorough': {'composites': 'until the time budget'}},
     'floor': {'quick': 100000, 'thorough': 1000000},
     'required_counters': ['decomposition_checks', 'exclusion_spelling_checks', 'permutation_checks', 'translate_length_checks',
-                          'negateall_cases', 'split_cases', 'brace_cases', 'model_checks'],
+                          'negateall_cases', 'split_cases', 'brace_cases', 'model_checks', 'polarity_by_expansion_cases'],
     'budget': {'quick': 45, 'thorough': 480},
     'shard_timeout': {'quick': 400, 'thorough': 1500},
     'assumptions': ['single patterns are evaluated by wcmatch itself (the decomposition law) and, on a sample, by the reference '
@@ -303,8 +303,55 @@ def degenerate_lists(ctx):
                                               'compiled_matches': got, 'filter': [repr(x) for x in flt], 'one_shot': one, 'translate_inclusions': [repr(x) for x in tr_[0]]})
 
 
+def polarity_by_expansion(ctx):
+    """Whether a text is an exclusion is decided per expanded piece, not per written pattern: a brace set whose members all carry
+    the marker (`{!a,!b}`) is two exclusions and no inclusion (so NEGATEALL supplies the implicit inclusion), and a SPLIT text that
+    opens with the marker but has an unmarked piece (`!a|b`) has an inclusion (so NEGATEALL supplies none)."""
+    from ..composite import Composite, L
+    star = (('star',),)
+    ast = {'a': L('a'), 'b': L('b'), 'c': L('c'), 'x': L('x'), 'ab': L('ab'), 'a*': L('a') + star, 'c*': L('c') + star,
+           '01': L('01'), '04': L('04'), '07': L('07')}
+    templates = [
+        (['{!a,!b}'], {'BRACE'}, [], ['a', 'b']),
+        (['{!a,b}'], {'BRACE'}, ['b'], ['a']),
+        (['!a|b'], {'SPLIT'}, ['b'], ['a']),
+        (['!a|!b'], {'SPLIT'}, [], ['a', 'b']),
+        (['a*|!ab'], {'SPLIT'}, ['a*'], ['ab']),
+        (['!{a,b}|c*'], {'SPLIT', 'BRACE'}, ['c*'], ['a', 'b']),
+        (['{!a*,!b}|!c'], {'SPLIT', 'BRACE'}, [], ['a*', 'b', 'c']),
+        (['!0{1..7..3}'], {'BRACE'}, [], ['01', '04', '07']),
+        (['{!0{1..7..3},!x}'], {'BRACE'}, [], ['01', '04', '07', 'x']),
+        (['{!0{1..7..3},!x}|c*'], {'BRACE', 'SPLIT'}, ['c*'], ['01', '04', '07', 'x']),
+        (['{!a,!b}', '!c'], {'BRACE'}, [], ['a', 'b', 'c']),
+        (['!a|b', '!c*'], {'SPLIT'}, ['b'], ['a', 'c*']),
+        (['{!a,!b}', 'c*'], {'BRACE'}, ['c*'], ['a', 'b']),
+    ]
+    idx = 0
+    for path_mode in (False, True):
+        for base in (('NEGATE',), ('NEGATE', 'NEGATEALL'), ('NEGATE', 'NEGATEALL', 'DOTMATCH'), ('NEGATE', 'NEGATEALL', 'MINUSNEGATE'),
+                     ('NEGATE', 'MINUSNEGATE')):
+            for pats, need, inc, exc in templates:
+                idx += 1
+                if not ctx.mine(idx):
+                    continue
+                mark = '-' if 'MINUSNEGATE' in base else '!'
+                c = Composite()
+                c.patterns = [t.replace('!', mark) for t in pats]
+                c.flags = set(base) | set(need)
+                if path_mode and idx % 3 == 0:
+                    c.flags.add('GLOBSTAR')
+                c.inc = [(t, ast[t]) for t in inc]
+                c.exc = [(t, ast[t]) for t in exc]
+                c.inline_count = len(set(inc)) + len(set(exc))
+                c.path_mode = path_mode
+                with ctx.case(label=('polarity-by-expansion', c.describe())):
+                    ctx.count('polarity_by_expansion_cases')
+                    check_composite(ctx, c, ctx.rng_for('pol', idx), idx)
+
+
 def run(ctx):
     degenerate_lists(ctx)
+    polarity_by_expansion(ctx)
     from .. import tree as T
     quick = ctx.quick
     k = 0
